@@ -18,7 +18,12 @@ class C09(C01):
     level_note = ("Lean kernel + standard axioms; hand-written model; float()/repr() are parameters of the model with "
                   "the stated contract (hypotheses of the theorems, exercised at run time on every generated weight)")
     assumptions = ["float(repr(x)) == x bit for bit for every finite x; repr(x) contains no ',', ' ' or line break"]
-    theorems = []
+    theorems = [
+        "PrefVerif.C09.roundtrip",
+        "PrefVerif.C09.independent_reader",
+        "PrefVerif.C09.addEdge_wf",
+        "PrefVerif.C09.wfGraph_built",
+    ]
     rule = ("random matching instances: 1-6 nodes with sparse ids, 1-10 add_edge calls incl. self-loops, antiparallel "
             "and overwritten edges, weights: integers, 1/3, 1e300, subnormals, 2^53+2, -0.0, uniform and random bit "
             "patterns; non-trivial = at least 2 edges")
